@@ -153,7 +153,8 @@ def main(argv=None):
     inlined = set()
     externs = set()
     new_led = {}
-    os.makedirs(os.path.join(ROOT, 'out', 'replay'), exist_ok=True)
+    OUTP = os.environ.get('PYVC_OUT') or 'out'      # scratch evaluations write their replays / evidence elsewhere
+    os.makedirs(os.path.join(ROOT, OUTP, 'replay'), exist_ok=True)
     for (i, u), r in zip(units, results):
         desc = None
         if u.target:
@@ -208,7 +209,7 @@ def main(argv=None):
                     if k['what'] not in [x['what'] for x in known_hit]:
                         known_hit.append(k)
                     continue
-                path = os.path.join('out', 'replay', '%s__%s.json' % (prop, safe(ob['name'])))
+                path = os.path.join(OUTP, 'replay', '%s__%s.json' % (prop, safe(ob['name'])))
                 rec = {'property': prop, 'obligation': ob['name'], 'function': u.target, 'describe': desc,
                        'formula': ob['formula'], 'solver': ob['backend'], 'model': ob.get('model'),
                        'concrete_input': rp.get('input'), 'observed': rp.get('observed'), 'expected': rp.get('expected'),
@@ -254,7 +255,7 @@ def main(argv=None):
                     if k['what'] not in [x['what'] for x in known_hit]:
                         known_hit.append(k)
                     continue
-                path = os.path.join('out', 'replay', '%s__%s__%s.json' % (prop, safe(r['name']), safe(str(v.get('id', len(violations))))))
+                path = os.path.join(OUTP, 'replay', '%s__%s__%s.json' % (prop, safe(r['name']), safe(str(v.get('id', len(violations))))))
                 rec = {'property': prop, 'obligation': '%s/%s' % (r['name'], v.get('id')), 'kind': kind,
                        'concrete_input': v.get('input'), 'observed': v.get('observed'), 'expected': v.get('expected'),
                        'replayed_failure': True, 'script': v.get('script'), 'detail': v.get('detail')}
@@ -319,8 +320,9 @@ def main(argv=None):
     evidence = {'property_id': prop, 'tier': tier, 'seed': seed, 'level': ev_level, 'coverage': cov,
                 'assumptions': trusted + list(getattr(mod, 'ASSUMPTIONS', [])),
                 'wall_s': round(time.time() - t0, 2), 'violations': len(violations)}
-    os.makedirs(os.path.join(ROOT, 'evidence'), exist_ok=True)
-    json.dump(evidence, open(os.path.join(ROOT, 'evidence', prop + '.json'), 'w'), indent=1, default=str)
+    evdir = os.path.join(ROOT, 'evidence') if OUTP == 'out' else os.path.join(ROOT, OUTP, 'evidence')
+    os.makedirs(evdir, exist_ok=True)
+    json.dump(evidence, open(os.path.join(evdir, prop + '.json'), 'w'), indent=1, default=str)
 
     if crashes:
         return EXIT_CRASH
